@@ -6,7 +6,7 @@ func init() {
 	register("C07", "", rulePUSHSTATE)
 	register("C09", "", ruleWSSET, ruleKWCASE, rulePARENID)
 	register("C11", "", ruleDFCOVER, ruleDFACCEPT)
-	register("C01", "", ruleREDBAL, rulePARPUSH, rulePANIC_C01)
+	register("C01", "", ruleREDBAL, rulePARPUSH, rulePANIC_C01, ruleFMT)
 	register("C13", "", rulePANIC_C13)
 	register("C10", "", ruleRETPAIR, ruleCTORNONNIL, ruleVALTOTAL, ruleVALSHAPE, ruleVALIDATEDOM)
 }
@@ -14,4 +14,17 @@ func init() {
 func init() {
 	register("C16", "", ruleLEXPEEK, ruleLEXTOK, ruleLEXWRITE, ruleLEXDEPTH, ruleLEXFIRST, ruleLEXLOOP, ruleWSSET, rulePARSEERR)
 	register("C08", "", rulePHRASELOOP)
+}
+
+func init() {
+	register("C02", "", ruleSQLTAINT, ruleSQLVOCAB, ruleSQLLEAF, ruleSQLIDLEN)
+	register("C03", "", ruleSQLOPMAP, ruleSQLPAREN, ruleSQLRANGE, ruleSQLNUM, ruleMARKER)
+}
+
+func init() {
+	register("C04", "", ruleSIBRENDER, ruleSIBSER, ruleSIBRANGE, ruleSIBLIKE, rulePHLINEAR, ruleNONINT)
+}
+
+func init() {
+	register("C15", "", ruleFOLD, ruleFOLDMISS, ruleTABLEKEYS)
 }
